@@ -49,9 +49,11 @@ def main():
     dest = os.path.join(VERIF, "seeded", name)
     os.makedirs(dest, exist_ok=True)
     for f in ("patch.diff", "demo.rs", "demo.patch", "NOTES.md"):
-        if os.path.exists(os.path.join(src, f)):
+        if os.path.exists(os.path.join(src, f)) and os.path.abspath(src) != os.path.abspath(dest):
             shutil.copy(os.path.join(src, f), os.path.join(dest, f))
     work = tempfile.mkdtemp(prefix="hpbf-seed-")
+    if not needs and os.path.exists(os.path.join(dest, "meta.json")):
+        needs = json.load(open(os.path.join(dest, "meta.json"))).get("needs_to_manifest", "")
     meta = {"property": pid, "name": name, "needs_to_manifest": needs, "confirmed_at": time.strftime("%Y-%m-%d %H:%M"),
             "ran": []}
     try:
